@@ -205,10 +205,6 @@ def witness_class(c, got):
     keys = [k for r in recs[:1] for k, _ in r]
     vals = [v for r in recs for _, v in r]
     if fmt == "tsv":
-        if any(set(k) & set(b"\\\t\r\n") for k in keys):
-            return "tsv-header-key-not-decoded"
-        if any(not utf8_ok(x) for x in keys + vals):
-            return "tsv-encoder-invalid-utf8-to-fffd"
         if recs and len(recs[0]) == 1 and (keys[0] == b"" or any(v == b"" for v in vals)):
             return "tsv-single-column-empty-cell"
     if fmt == "csv":
@@ -617,9 +613,8 @@ def run(ctx):
     for s, line in zip(codec_inputs, out.splitlines()):
         e, d = (bytes.fromhex(x) for x in (line.split(" ") + [""])[:2])
         terms.append(f"CTsvCodec {coq_bytes(s)} {coq_bytes(e)} {coq_bytes(d)}"); meta.append(("codec", s))
-        terms.append(f"CUtf8 {coq_bytes(s)} {coq_bool(utf8_ok(s))}"); meta.append(("utf8", s))
         ctx.count(("codec", s))
-    ctx.dist("tsv-codec+utf8", len(codec_inputs))
+    ctx.dist("tsv-codec", len(codec_inputs))
     for i in (0, len(wcases) // 2, len(wcases) + 5, len(terms) - 3):
         if 0 <= i < len(meta) and meta[i][0] in ("write", "read"):
             m = meta[i][1]
@@ -724,8 +719,9 @@ def oracle(ctx, wcases, rjobs, already=()):
 
 WITNESSES = [
     # (class, write args, read args, records)
-    ("tsv-header-key-not-decoded", ["--otsv"], ["--itsv"], [[(b"a\\b", b"1")]]),
-    ("tsv-encoder-invalid-utf8-to-fffd", ["--otsv"], ["--itsv"], [[(b"a", b"\xff")]]),
+    # repaired in /repo (d7dac80b0, 6c1ca4524): not known findings any more, a regression is a plain VIOLATION
+    ("regression-of-d7dac80b0-tsv-header-key-not-decoded", ["--otsv"], ["--itsv"], [[(b"a\\b", b"1"), (b"c\td\r\n", b"2")]]),
+    ("regression-of-6c1ca4524-tsv-encoder-invalid-utf8-to-fffd", ["--otsv"], ["--itsv"], [[(b"a\xff", b"\xff\xc3")]]),
     ("tsv-single-column-empty-cell", ["--otsv"], ["--itsv"], [[(b"a", b"")]]),
     ("csv-reader-crlf-in-quoted-field-to-lf", ["--ocsv"], ["--icsv"], [[(b"a", b"x\r\ny")]]),
     ("csv-ors-crlf-writer-drops-cr", ["--ocsv", "--ors", "crlf"], ["--icsv"], [[(b"a", b"x\ry")]]),
